@@ -3,5 +3,6 @@ CONSTANT Depth = 3
 CONSTANT DcShift = "0"
 CONSTANT Hook = FALSE
 CONSTANT Side = "client"
+CONSTANT Mms = 0
 INVARIANT Emit
 CHECK_DEADLOCK FALSE
